@@ -659,6 +659,14 @@ class Interp(Exec):
             return VClass(name)
         if hasattr(builtins, name):
             return VBuiltin(name)
+        if self.spec_mode and name in self.reg.enums:
+            return VClass(name)       # an enumeration declared by the contract module, named in a clause evaluated in a frame that does not import it
+        top = getattr(self, "fi", None)
+        if self.spec_mode and top is not None and fi is not None and top.module != fi.module:
+            # a clause of a callee's contract evaluated inside an inlined helper of another module: names are those of the function under verification
+            v = self.resolve_module_name(top.module, name)
+            if v is not None:
+                return v
         if self.spec_mode and not getattr(self, "pure_code", 0) and getattr(self, "drift", False) is False and name.islower() and fi is not None \
                 and any(isinstance(x, ast.Name) and x.id == name and isinstance(x.ctx, ast.Store) for x in ast.walk(fi.node)):
             # a local of the function that is not assigned on this path: specifications are total, its value here is arbitrary
